@@ -3,3 +3,6 @@ import AmiscProofs.CoeffUpdate
 import AmiscProofs.IndexInv
 import AmiscProofs.IEBridge
 import AmiscProofs.IndexExtra
+import AmiscProofs.Combination
+import AmiscProofs.Bary
+import AmiscProofs.BaryDeriv
